@@ -191,6 +191,34 @@ def _machine_case(case, c, tmp):
         c.transitions += 1
         compare(tgt, f"load() into a {shape} machine")
         settings(tgt, f"load() into a {shape} machine")
+    # load() into machines of the SAME shape whose current arrays are (i) read-only, (ii) one array object shared by two
+    # targets that then load different files: a loaded machine owns what it read
+    alt = copy.deepcopy(g)
+    alt.means = np.asarray(g.means, float) + 1.0
+    palt = os.path.join(tmp, "alt.h5")
+    alt.save(palt)
+
+    def target(mu, var, w):
+        t_ = GMMMachine(2, trainer="map", ubm=ubm) if g.trainer == "map" else GMMMachine(2)
+        t_.weights, t_.means, t_.variances = w, mu, var
+        return t_
+
+    ro = [np.zeros((2, 2)) + 7.0, np.ones((2, 2)) * 3.0, np.array([0.5, 0.5])]
+    for a_ in ro:
+        a_.setflags(write=False)
+    tgt = target(*ro)
+    try:
+        tgt.load(paths[0])
+        compare(tgt, "load() into a machine holding read-only arrays")
+    except Exception as e:  # noqa: BLE001
+        c.check(False, "bit_identical", f"load() into a machine holding read-only arrays raises {e!r}", tags)
+    sh = [np.zeros((2, 2)) + 7.0, np.ones((2, 2)) * 3.0, np.array([0.5, 0.5])]
+    t1, t2 = target(*sh), target(*sh)
+    t1.load(paths[0])
+    t2.load(palt)
+    compare(t1, "load() into one of two machines that were started from the same array objects (the other loaded another file afterwards)")
+    c.check(_eq(t2.means, alt.means), "bit_identical", "second of two machines started from the same array objects: means differ from its file", tags)
+    c.transitions += 3
     # load() into an existing machine of the *other* trainer kind (it has the UBM), then train both further
     if ubm is not None or True:
         u2 = ubm
